@@ -17,7 +17,7 @@ RULE = ("postconditions on Conic.from_points / from_lines / from_tangent / from_
         "center / radius / foci / area / volume equal the parameters and textbook measures. Workload: five lattice points in exact general position, "
         "tangent lines off the points, centres anywhere, radii != 1, axis directions in all 26 lattice octant classes and random ones, "
         "from_foci with the boundary point off both axes. Non-trivial: parameters not all in {0,1,-1}; distinct by parameter digest."
-        " The constructed quadric is read back again after an odd number of is_tangent / dual / polar queries; vertices, centres and directions of cones and cylinders are given in arbitrary homogeneous representatives.")
+        " The constructed quadric is read back again after an odd number of is_tangent / dual / polar queries; vertices, centres and directions of cones and cylinders are given in arbitrary homogeneous representatives; spheres and circles in other scales of the matrix (normalize_matrix=True, images under uniform scalings and translations) report the same centre and the scaled radius / measures.")
 SHARDS = (8, 16)
 REQUIRED = ["from_points", "from_lines", "from_tangent", "from_foci", "from_crossratio", "ellipse", "circle", "sphere", "cone", "cylinder", "readback"]
 ASSUMPTIONS = ["from_tangent may return a degenerate member of the pencil for special lattice data (tangency judged by the discriminant on the line)"]
